@@ -271,6 +271,7 @@ def builtin2 (fn : String) : Val F → Val F → Except String (Val F)
     else if fn = "Add" then .ok (.int (a + b))
     else if fn = "Before" then .ok (.bool (decide (a < b)))
     else if fn = "After" then .ok (.bool (decide (a > b)))
+    else if fn = "Truncate" then .ok (.int (if b ≤ 0 then a else a - a % b))     -- `t.Truncate(d)`, t ≥ 0 since the zero time
     else .error "builtin on integers"
   | .flt a, .flt b =>
     if fn = "math.Max" then .ok (.flt (FloatLike.max a b))
